@@ -54,7 +54,13 @@ PROPS["C01"]["level_note"] += " " + (
     "against the ring transferred to the text by ring_match_is_text_match, Zopfli's short-code table = RFC symbols 0..15 `zopfli_short_code`); the match loop keeps it for every cost oracle and every MatchOK match list "
     "(`match_loop_sound_partial`: copies for every length up to the match length, dictionary references only with the match's own length). NOT proved: the glue `candidate` / UpdateNodes around the two loops (unfolding `candidate` "
     "makes the Lean kernel compare k + 2^64 in successor form inside the bound check of queue.at — a proof-engineering obstacle), EvaluateNode (ComputeDistanceCache = the ring RingAt of the position; StartPosQueue::push keeps entries sound; "
-    "needs le(inf, literal cost) = false so that an untouched node never enters the queue), the outer loops (BrotliZopfliComputeShortestPath, ZopfliIterate, skip logic), and MatchOK for FindAllMatchesH10 (the H10 tree walk). "
+    "needs le(inf, literal cost) = false so that an untouched node never enters the queue), the outer loops (BrotliZopfliComputeShortestPath, ZopfliIterate, skip logic), and MatchOK for FindAllMatchesH10: only its short-distance loop is done (`h10_short_matches_sound_partial`: every match it reports is BackwardMatch::init(backward, len) with 1 <= backward <= min(max_backward, cur_ix), len <= max_length and len agreeing bytes at the two masked ring positions); the matches of the binary-tree walk StoreAndFindMatchesH10 compare only the bytes from min(best_len_left, best_len_right) on, so their soundness needs the ordering invariant of the tree over all earlier Store calls, which is not formulated yet. "
     "Until then `AllBack` is a HYPOTHESIS of path_commands_lockstep, covered per run only indirectly (the `cc` lines check cmdOK + lockstep + replay of the model's commands on every real node array). "
     "NPOSTFIX = NDIRECT = 0, one call = one meta-block, as in C01Chain."
 )
+PROPS["C01"]["assumptions"] = PROPS["C01"]["assumptions"] + [
+    "C01Zopfli: zopfli_commands_lockstep assumes NodesOK (path_commands_lockstep: AllBack) of the node array — not yet derived from the dynamic programme; NPOSTFIX = NDIRECT = 0; window <= 2^30, "
+    "params.dist.max_distance + 15 < 2^31 (standard alphabet: both <= 2^26 - 4); meta-block <= 2^24 bytes; distance cache entries are i32 and at least 4 are present",
+    "C01Zopfli (partial theorems): the ring view of C01Chain (RingViewW over the slice the hashers read, tail <= ring, block <= tail, lo <= base - window), positions below 2^63; MatchOK for the match list "
+    "(for dictionary matches: the decoder's word oracle expands (length code, index, transform) to the matched bytes, length code 4..24, length code <= length + 9, length <= length code + 64)",
+]
